@@ -12,6 +12,7 @@ import (
 	"fmt"
 	"io"
 	"math/big"
+	"os"
 	"sort"
 	"sync"
 
@@ -35,6 +36,10 @@ func initVals() {
 	one := big.NewInt(1)
 	rejectVals = []*big.Int{big.NewInt(0), ref.N, new(big.Int).Add(ref.N, one), new(big.Int).Sub(ref.R256, one)}
 	acceptVals = []*big.Int{one, big.NewInt(2), new(big.Int).Sub(ref.N, one)}
+	if os.Getenv("VERIF_TIER") == "thorough" { // 5 rejecting x 4 accepting values: 488 k + 391 k streams
+		rejectVals = append(rejectVals, new(big.Int).Add(ref.N, new(big.Int).Lsh(one, 127)))
+		acceptVals = append(acceptVals, ref.HalfN)
+	}
 }
 
 type countingReader struct {
@@ -375,8 +380,8 @@ func main() {
 				R.Mismatch(fmt.Sprintf("sampler/stream/rejects=%d", len(c)-1), "sampler", m, mc.D{"cands": hs})
 			}
 		})
-		R.Class("sampler/streams ending in an accept", int64(len(streams))-int64(pow(4, max))-1)
-		R.Class("sampler/all-reject streams", int64(pow(4, max))+1)
+		R.Class("sampler/streams ending in an accept", int64(len(streams))-int64(pow(len(rejectVals), max))-1)
+		R.Class("sampler/all-reject streams", int64(pow(len(rejectVals), max))+1)
 		R.Sample("sampler stream", map[string]any{"candidates": []string{"n", "0", "2^256-1", "n-1"}, "expected": "n-1 exactly; 128 bytes consumed"})
 		// reader deviations on [n, 0, 2]
 		var scs []mc.Script
